@@ -27,8 +27,9 @@
 //!     disk with two holes, two separate disks, a fin (edge in three faces: `calc_edges` already refuses), single-boundary
 //!     inputs that are not disks (disk + separate closed box; torus with one hole).  Each: the call
 //!     `calc_edges()?.boundary_first_flatten()` returns, does not panic, and returns Err.  LAST of the whole run (2 s
-//!     watchdog): two triangles sharing ONE vertex (D7: the boundary successor map is not a bijection there and
-//!     `boundary_loops` never returns on the unchanged tree; the stuck thread dies with the process).
+//!     watchdog): two triangles sharing ONE vertex (D7: the boundary successor map is not a bijection there; since the
+//!     D7 repair `identify_edges` answers Err for it - before, `boundary_loops` never returned and the stuck thread died
+//!     with the process).
 //! (d) UV ROUND TRIP: Mesh::new_with_uv with (i) the flattening result of planar and curved disks, (ii) hand-made UV
 //!     maps (sheared / scaled copies of a parameter plane).  For every face f and 10 barycentric weights (interior, on
 //!     edges, at vertices): uv = UvMapping::point(f, w) is the w-combination of the face's UV corners; uv_to_3d(uv) is the
@@ -448,7 +449,8 @@ fn rejection(r: &mut Report) {
 }
 
 /// LAST clause of the run (own name).  Two disks sharing ONE vertex: the boundary successor map built by identify_edges is
-/// not a bijection there and `boundary_loops` never returns (C12, D7: `working` grows without bound).  The call is made on a
+/// not a bijection there; before the D7 repair (C12) `boundary_loops` never returned (`working` grew without bound), now
+/// `calc_edges` answers Err.  The call is made on a
 /// helper thread, the watchdog waits 2 s (the call takes microseconds when it returns) and the process exits right after
 /// the report is printed, so the abandoned thread cannot exhaust memory.
 fn rejection_vertex_contact(r: &mut Report) {
